@@ -204,7 +204,7 @@ def mutate(rng, valid):
 
 def plan(tier, seed):
     n = 16 if tier == 'quick' else 64
-    per = 2600 if tier == 'quick' else 40000
+    per = 9000 if tier == 'quick' else 40000
     return [{'kind': 'strings', 'count': per} for _ in range(n)]
 
 
@@ -246,7 +246,26 @@ def run(spec, ctx):
         cls, s = gen_invalid(rng, rng.choice(valids))
         m.check(s, 'invalid:' + cls, expect='reject')
         ctx.see('invalid_classes', cls)
+    # the array-formula spelling {=...}: same formula; trailing text invalid
+    for i in range(n // 16):
+        v = rng.choice(valids)
+        w1, w2, w3 = (rng.choice(('', ' ', '  ')) for _ in range(3))
+        arr = '%s{%s=%s%s}%s' % (w1, w2, v[1:], w3, w1)
+        o1 = m.check(arr, 'valid-array-spelling')
+        ctx.count('arrayspelling.' + o1)
+        tail = rng.choice((')', '3', '$', '+', '(', '"x"', ' 1', ',', 'A1', '%'))
+        m.check('{=%s}%s' % (v[1:], tail), 'invalid:trailing-after-brace',
+                expect='reject')
+        head = rng.choice(('1', 'x', '(', '"a"', '+'))
+        m.check('%s{=%s}' % (head, v[1:]), 'invalid:leading-before-brace',
+                expect='reject')
     lits = gen_literals(rng, n // 10)
+    for z in ('0', '00', '0.0', '0E+00', '0.0E+00', '00E-00', '0e+3', '000.000',
+              '1E+00', '10E-01', '100', '1000000', '1E+308', '4.9E-324'):
+        try:
+            lits.append((z, float(z)))
+        except ValueError:
+            pass
     for lit, v in lits:
         m.check('=' + lit, 'literal', expect='accept', value=v)
         w = rng.randrange(4)
@@ -267,7 +286,7 @@ def run(spec, ctx):
 
 def finalize(agg, tier):
     c, inc = agg['counters'], []
-    for k, floor in (('parse.valid', 3000), ('parse.soup', 3000),
+    for k, floor in (('parse.valid', 9000), ('parse.soup', 9000),
                      ('parse.noise', 2000), ('parse.mutant', 6000),
                      ('parse.invalid', 2500), ('parse.literal', 1500),
                      ('valid.accepted', 2500)):
